@@ -32,7 +32,8 @@ Basics == {B("int"), B("string"), B("bool"), B("float64"), B("uint8"), B("comple
 \* fixture leaves: named basics, a local struct with an unexported field, a struct imported from
 \* m/ext with unexported fields, a struct from m/other/ext (same package name), a recursive struct,
 \* a struct with embedded fields
-FixLeaves == {Leaf("MyInt"), Leaf("MyString"), Leaf("SL"), Leaf("ext.SE"), Leaf("ext2.SE2"), Leaf("Rec"), Leaf("Emb")}
+FixLeaves == {Leaf("MyInt"), Leaf("MyString"), Leaf("SL"), Leaf("ext.SE"), Leaf("ext2.SE2"), Leaf("Rec"), Leaf("Emb"),
+              Leaf("time.Duration"), Leaf("time.Time")}   \* a named basic and a struct (unexported fields, own Equal/Compare methods) from the standard library
 Leaves == Basics \cup FixLeaves
 
 \* value keys of maps
@@ -67,7 +68,7 @@ HasBad(t) == CASE t.k = "bad" -> TRUE
 RECURSIVE Comparable(_)
 Comparable(t) ==
   CASE t.k = "basic" -> TRUE
-    [] t.k = "leaf" -> t.n \in {"MyInt", "MyString", "SL", "KeyStruct"}
+    [] t.k = "leaf" -> t.n \in {"MyInt", "MyString", "SL", "KeyStruct", "time.Duration", "time.Time"}
     [] t.k = "ptr" -> TRUE
     [] t.k \in {"slice", "map"} -> FALSE
     [] t.k \in {"array", "wrap", "named"} -> Comparable(t.e)
@@ -77,7 +78,7 @@ Comparable(t) ==
 \* an imported struct with unexported fields somewhere inside: GoString cannot rebuild it outside its package
 RECURSIVE HasExtPrivate(_)
 HasExtPrivate(t) ==
-  CASE t.k = "leaf" -> t.n \in {"ext.SE", "ext2.SE2"}
+  CASE t.k = "leaf" -> t.n \in {"ext.SE", "ext2.SE2", "time.Time"}
     [] t.k \in {"ptr", "slice", "array", "wrap", "named"} -> HasExtPrivate(t.e)
     [] t.k = "map" -> HasExtPrivate(t.key) \/ HasExtPrivate(t.e)
     [] OTHER -> FALSE
